@@ -2,6 +2,7 @@ import PyElf.Driver.Json
 import PyElf.Gen.Tables
 import PyElf.Gen.Structs
 import PyElf.Gen.Pure
+import PyElf.Driver.C16
 open Lean
 namespace PyElf
 
@@ -44,6 +45,7 @@ def handle (req : Json) : Except String Json := do
   let p ← jStr req "p"
   match p with
   | "con" => handleCon req
+  | "C16" => Driver.C16.handle req
   | _ => throw s!"unknown property {p}"
 
 end PyElf
